@@ -290,7 +290,8 @@ reserved 10 to 12 , 15 ; reserved "zz" ; extensions 100 to 199 ; enum E { option
 extend M { optional int32 x = 100 ; } service S { rpc R ( M ) returns ( M ) { option deprecated = true ; } rpc Q ( stream M ) returns ( stream M ) ; }
 message Lit { optional int32 a = 1 ; optional string b = 2 ; optional Lit c = 3 ; repeated int32 e = 5 ; }
 extend google . protobuf . FileOptions { optional Lit fo = 50001 ; } option ( fo ) = { a : 1 b : "s" c { a : 2 } e : [ 1 , 2 ] } ; option ( fo ) . c . b = "t" ;
-extend google . protobuf . FileOptions { optional Lit fo2 = 50002 ; } option ( fo2 ) = { a : 1 c < a : 2 b : "u" c < a : 4 > > e : [ 3 ] } ;`)
+extend google . protobuf . FileOptions { optional Lit fo2 = 50002 ; } option ( fo2 ) = { a : 1 c < a : 2 b : "u" c < a : 4 > > e : [ 3 ] } ;
+extend google . protobuf . FileOptions { optional Lit fo3 = 50003 ; optional Lit fo4 = 50004 ; } option ( fo3 ) = { c < > } ; option ( fo4 ) = { c { } } ;`)
 
 var formatSkeletonText = strings.Join(formatSkeleton, " ") + "\n"
 
